@@ -5,7 +5,7 @@ import impl, proto, model
 OBLIGATIONS = [
     'Yalafi.C13_substitute_spec', 'Yalafi.C13_substitute_positions', 'Yalafi.C13_findSpans_ok',
     'Yalafi.C13_match_no_par_break', 'Yalafi.C13_match_boundaries', 'Yalafi.C13_parseRule_comment',
-    'Yalafi.C13_parseRule_no_lhs', 'Yalafi.C13_replacePhrases', 'Yalafi.C13_tex2txt_plain_repl', 'Yalafi.C13_tex2txt_plain_repl_current', 'Yalafi.C13_tex2txt_repl_commutes', 'Yalafi.C13_tex2txt_repl_ok',
+    'Yalafi.C13_parseRule_no_lhs', 'Yalafi.C13_replacePhrases', 'Yalafi.C13_tex2txt_plain_repl', 'Yalafi.C13_tex2txt_plain_repl_current', 'Yalafi.C13_tex2txt_repl_commutes', 'Yalafi.C13_tex2txt_repl_ok', 'Yalafi.C13_tex2txt_repl_commutes_ml',
 ]
 
 WORDS = ['und', 'oder', 'z.B.', 'a', 'B', 'e.g.', 'x+y', '(s)', 'Äpfel', 'naïve', 'd_1', 'x2', '$5', 'i.e.', 'Maß',
